@@ -12,6 +12,9 @@ import (
 
 func identOfValidator(v tfsdk.AttributeValidator) string {
 	if x, ok := v.(tfx.Validator); ok {
+		if x.Form != "" {
+			return x.Form
+		}
 		return fmt.Sprintf("verif/tfx.V(%d)", x.ID)
 	}
 	return fmt.Sprintf("%T:%s", v, v.Description(bg))
@@ -19,6 +22,9 @@ func identOfValidator(v tfsdk.AttributeValidator) string {
 
 func identOfPM(v tfsdk.AttributePlanModifier) string {
 	if x, ok := v.(tfx.PlanModifier); ok {
+		if x.Form != "" {
+			return x.Form
+		}
 		return fmt.Sprintf("verif/tfx.PM(%d)", x.ID)
 	}
 	if fmt.Sprintf("%T", v) == fmt.Sprintf("%T", tfsdk.UseStateForUnknown()) {
